@@ -20,8 +20,10 @@ import (
 	"sort"
 	"strconv"
 	"strings"
+	"sync"
 
 	"rare/pkg/extractor"
+	"rare/pkg/matchers"
 	"rare/pkg/matchers/dissect"
 	"rare/pkg/slicepool"
 )
@@ -106,11 +108,13 @@ func c12Field(ic bool, pat string, line []byte) string {
 	if err != nil {
 		return "err " + c12ErrClass(err)
 	}
-	r := d.CreateInstance().FindSubmatchIndex(line)
+	// through the factory wrapper of pkg/matchers/factory.go, as the CLI wires it
+	m := matchers.ToFactory(d).CreateInstance()
+	r := m.FindSubmatchIndex(line)
 	if r == nil {
 		return "ok nomatch"
 	}
-	ctx := extractor.VerifContext(string(line), r, d.SubexpNameTable())
+	ctx := extractor.VerifContext(string(line), r, m.SubexpNameTable())
 	whole := string(line[r[0]:r[1]])
 	if g := ctx.GetMatch(0); g != whole {
 		return fmt.Sprintf("seam-disagree GetMatch(0)=%q slice=%q", g, whole)
@@ -137,8 +141,54 @@ func c12Field(ic bool, pat string, line []byte) string {
 	return fmt.Sprintf("ok len=%d 0=%s f=%s", len(r), HexS(whole), f)
 }
 
+// c12Par: k goroutines, each with its own instance (matchers.ToFactory(d).CreateInstance(), as
+// extractor.asyncWorker does) of ONE compiled pattern, match the lines concurrently, keep the slices
+// and render them after all goroutines are done.  All must give the single-instance answer.
+func c12Par(ic bool, pat string, lines [][]byte, rep, k int) string {
+	single := c12Match(ic, pat, lines, rep)
+	if !strings.HasPrefix(single, "ok") {
+		return single
+	}
+	d, _ := dissect.CompileEx(pat, ic)
+	fac := matchers.ToFactory(d)
+	held := make([][][]int, k)
+	var wg sync.WaitGroup
+	for g := 0; g < k; g++ {
+		wg.Add(1)
+		go func(g int) {
+			defer wg.Done()
+			m := fac.CreateInstance()
+			for j := 0; j < rep; j++ {
+				for _, l := range lines {
+					held[g] = append(held[g], m.FindSubmatchIndex(l))
+				}
+			}
+		}(g)
+	}
+	wg.Wait()
+	want := single[strings.Index(single, " r=")+3:]
+	for g := 0; g < k; g++ {
+		parts := make([]string, len(held[g]))
+		for i, r := range held[g] {
+			parts[i] = c12Ints(r)
+		}
+		got := "."
+		if len(parts) > 0 {
+			got = strings.Join(parts, "|")
+		}
+		if got != want {
+			return fmt.Sprintf("instances-disagree goroutine=%d", g)
+		}
+	}
+	return single
+}
+
 func c12RunExt(f []string) (string, bool) {
 	switch f[0] {
+	case "par":
+		rep, _ := strconv.Atoi(f[4])
+		k, _ := strconv.Atoi(f[5])
+		return c12Par(f[1] == "1", string(UnHex(f[2])), UnHexList(f[3]), rep, k), true
 	case "index":
 		return c12Index(UnHex(f[1]), UnHex(f[2])), true
 	case "pool":
@@ -351,6 +401,24 @@ func c12GenExt(r *Rand, tier string) []string {
 	for i := 0; i < n/2; i++ {
 		out = append(out, c12GenField(r))
 	}
+	for i := 0; i < n/50; i++ {
+		p := c12GenPat(r)
+		ic := r.Bool()
+		icS := "0"
+		if ic {
+			icS = "1"
+		}
+		nl := 2 + r.Intn(5)
+		var lines [][]byte
+		for j := 0; j < nl; j++ {
+			lines = append(lines, c12GenLine(r, p, ic))
+		}
+		rep := 1 + r.Intn(3)
+		if tier == "thorough" && r.Chance(1, 25) {
+			rep = 1100/nl + 1 // every goroutine's pool is refilled (quick: the corpus case does that)
+		}
+		out = append(out, fmt.Sprintf("par %s %s %s %d %d", icS, HexS(p.render()), HexList(lines), rep, 2+r.Intn(4)))
+	}
 	for i := 0; i < n/6; i++ {
 		pat := c12GenRawPattern(r)
 		if r.Bool() {
@@ -433,6 +501,9 @@ func c12StatsExt(f []string, st map[string]int) bool {
 			st["pool.panic"]++
 		}
 		return true
+	case "par":
+		st["op.par"]++
+		return true
 	case "must":
 		st["op.must"]++
 		if c12Must(string(UnHex(f[1]))) == "panic" {
@@ -476,6 +547,7 @@ func c12CorpusExt() []string {
 		ix(long+"aaaaaaa", "aaaaaaa"), ix(long, strings.Repeat("aaaaaab", 10)+"b"), ix(long+"x", long[3:]+"x"),
 		ix(strings.Repeat("ab", 200)+"aa", strings.Repeat("ab", 40)+"aa"),
 		"pool 4 2,2,2", "pool 4 4,4,0,0,4", "pool 4 5", "pool 0 0,0", "pool 0 1", "pool 3 1,3,1,1,1,1", "pool 2 .",
+		fmt.Sprintf("par 1 %s %s 400 4", HexS("K=%{x} %{?s};%{y}"), HexListS([]string{"ak=1 2;3", "", "Ak=x y;z"})),
 		"must " + HexS("%{a} %{b}"), "must " + HexS("%{a}%{b}"), "must " + HexS("%{a"), "must " + HexS("%{a} %{a}"), "must -",
 		fd(0, "k=%{x} %{?s};%{y}", "ak=1 2;3"), fd(1, "K=%{x} %{?s};%{y}", "ak=1 2;3"), fd(0, "%{src} %{line} %{.}", "1 2 3"),
 		fd(0, "%{a} %{?a} %{}", "1 2 3"), fd(0, "%{a}=", "x"), fd(1, "é%{v}É", "aé1É"), fd(0, "%{}", ""),
